@@ -140,7 +140,7 @@ func c03Check(c *rt.Ctx, sub int, x any, t reflect.Type, feat string, asciiOnly 
 		}
 		if !oracle.Recognise(body, 0) && passthroughFeature(feat) {
 			// bytes supplied by user code were copied: which lenience of the validator let them pass?
-			c.Violate(rt.Violation{Monitor: "enc-wellformed", Entry: e.name, Kind: "malformed-output:passthrough", Ctx: utilExplain(body) + " @ " + featTag(feat),
+			c.Violate(rt.Violation{Monitor: "enc-wellformed", Entry: e.name, Kind: "malformed-output:passthrough", Ctx: strings.ReplaceAll(utilExplain(body), " + ", " @ "+featTag(feat)+" + ") + " @ " + featTag(feat),
 				Detail: e.name + " succeeded with " + rt.Q(body) + " | type " + t.String(), Input: input, Sub: sub})
 			continue
 		}
